@@ -129,53 +129,30 @@ theorem C12_time_decision (cfg : List (Strat × Bool)) (ops : List Op) :
   simp only [timeOK, decide_eq_true_eq]
   omega
 
-/-- `baseline + maxMessages` fits int64 -/
-def NoOverflow (b m : Int) : Prop := -9223372036854775808 ≤ b + m ∧ b + m < 9223372036854775808
-
-theorem wrap64_id (x : Int) (h : -9223372036854775808 ≤ x ∧ x < 9223372036854775808) : wrap64 x = x := by
-  unfold wrap64
-  omega
-
-/-- the message-count trigger is raised only at or above the int64 sum `baseline + maxMessages` … -/
-theorem C12_count_threshold_wrapped (cfg : List (Strat × Bool)) (ops : List Op) :
-    ∀ a g p b m, Ev.crossed a g p b m ∈ (run (init cfg) ops).log → wrap64 (b + m) ≤ p := by
-  intro a g p b m h
-  simpa [evOK] using log_sound cfg ops _ h
-
-/-- … which is the true threshold whenever the sum does not overflow -/
+/-- the message-count trigger is raised only at or above `baseline + maxMessages` (true integers: since
+    fix 5123092 the comparison is `current - baseline < maxMessages`, which cannot overflow) -/
 theorem C12_count_threshold (cfg : List (Strat × Bool)) (ops : List Op) :
-    ∀ a g p b m, Ev.crossed a g p b m ∈ (run (init cfg) ops).log → NoOverflow b m → countOK p b m = true := by
-  intro a g p b m h hno
-  have := C12_count_threshold_wrapped cfg ops a g p b m h
-  rw [wrap64_id _ hno] at this
-  simpa [countOK] using this
+    ∀ a g p b m, Ev.crossed a g p b m ∈ (run (init cfg) ops).log → countOK p b m = true := by
+  intro a g p b m h
+  simpa [evOK, countOK] using log_sound cfg ops _ h
 
-/-- the count clause for ALL op sequences: every passivation attempt of the message-count path goes
-    back to a MessageProcessed call of that very entry object that found `processed ≥ baseline +
-    maxMessages` — in int64; the true inequality holds unless `baseline + maxMessages` overflows -/
+/-- THE COUNT CLAUSE, for ALL op sequences and every MaxMessages: every passivation attempt of the
+    message-count path goes back to a MessageProcessed call of that very entry object that found
+    `processed ≥ baseline + maxMessages` -/
 theorem C12_count (cfg : List (Strat × Bool)) (ops : List Op) :
     ∀ a g, Ev.countFire a g ∈ (run (init cfg) ops).log →
-      ∃ a' p b m, Ev.crossed a' g p b m ∈ (run (init cfg) ops).log ∧ (NoOverflow b m → countOK p b m = true) := by
+      ∃ a' p b m, Ev.crossed a' g p b m ∈ (run (init cfg) ops).log ∧ countOK p b m = true := by
   intro a g h
   obtain ⟨a', p, b, m, hm⟩ := (cinv_reachable cfg ops).fire a g h
   exact ⟨a', p, b, m, hm, C12_count_threshold cfg ops a' g p b m hm⟩
 
-/-- finding C12-F4: `threshold := entry.baseline + int64(entry.maxMessages)` wraps for a huge
-    MaxMessages: with N = MaxInt64 the very first processed message (PostStart) crosses the "threshold"
-    and the actor is passivated after 0 of its 9223372036854775807 messages -/
+/-- (fixed, 5123092: was finding C12-F4) with MaxMessages = MaxInt64 the int64 sum `baseline +
+    maxMessages` used to wrap and PostStart alone passivated the actor; now nothing crosses -/
 def witnessOverflow : List Op := [.simple (.deliver 0), .drain [] []]
 
-theorem witnessOverflow_event :
-    Ev.crossed 0 0 1 1 9223372036854775807 ∈ (run (init [(.count 9223372036854775807, false)]) witnessOverflow).log
-    ∧ Ev.countFire 0 0 ∈ (run (init [(.count 9223372036854775807, false)]) witnessOverflow).log
-    ∧ ((run (init [(.count 9223372036854775807, false)]) witnessOverflow).actors 0).running = false := by decide
-
-theorem C12_count_refuted : ¬ ∀ cfg ops, ApiRun ops → ∀ a g p b m,
-    Ev.crossed a g p b m ∈ (run (init cfg) ops).log → countOK p b m = true := by
-  intro h
-  have := h [(.count 9223372036854775807, false)] witnessOverflow (by unfold ApiRun; decide) 0 0 1 1 9223372036854775807
-    witnessOverflow_event.1
-  exact absurd this (by decide)
+theorem witnessOverflow_quiet :
+    (run (init [(.count 9223372036854775807, false)]) witnessOverflow).log = []
+    ∧ ((run (init [(.count 9223372036854775807, false)]) witnessOverflow).actors 0).running = true := by decide
 
 /-! ### PostStop exactly once -/
 
@@ -216,16 +193,15 @@ theorem C12_stopped (cfg : List (Strat × Bool)) (ops : List Op) :
 
 /-- What survives of `C12_full`, for every configuration and EVERY op sequence (runtime-level or raw,
     any operations inside the unlock windows): the guard clause, the count clause, "passivated ⇒ stopped",
-    the time clause AT THE DECISION INSTANT (C12_time_decision), and the once clause.  (Excluded: the literal time
-    clause — a message handled inside the unlock window, C12-F2 — and the count threshold when
-    `baseline + maxMessages` overflows int64, C12-F4.) -/
+    the time clause AT THE DECISION INSTANT (C12_time_decision), and the once clause.  (Excluded: only the literal time
+    clause — a message handled inside the unlock window, C12-F2.) -/
 theorem C12_partial (cfg : List (Strat × Bool)) (ops : List Op) :
     (∀ a src ll ss sk st su pf rn now latest pr,
         Ev.tried a src true ll ss sk st su pf rn now latest pr ∈ (run (init cfg) ops).log →
         guardsOK ll pf su st = true ∧
         ((run (init cfg) ops).actors a).running = false ∧ 1 ≤ ((run (init cfg) ops).actors a).postStops) ∧
     (∀ a g, Ev.countFire a g ∈ (run (init cfg) ops).log →
-        ∃ a' p b m, Ev.crossed a' g p b m ∈ (run (init cfg) ops).log ∧ (NoOverflow b m → countOK p b m = true)) ∧
+        ∃ a' p b m, Ev.crossed a' g p b m ∈ (run (init cfg) ops).log ∧ countOK p b m = true) ∧
     (∀ a g now deadline T l ar,
         Ev.decide a g now deadline T (some l) false ar true true ∈ (run (init cfg) ops).log →
         deadline ≤ now ∧ timeOK touchIv T now (some l) = true) ∧
